@@ -306,6 +306,7 @@ func runC13(e *Env) error {
 		}
 	}
 	// token counts at the growth steps of the token buffer: the dashes of such a template still trim
+	tokenBufferGrowthSweep(e, "C13: a dash trims adjacent whitespace and changes nothing else, whatever the number of tokens (implementation-only oracle; token buffer growth)")
 	for _, total := range tokenCountTargets(false) {
 		src := sourceWithTokens(e.Rng, total)
 		c := &Case{Templates: map[string]string{"main": src}, Main: "main", Ctx: map[string]any{"a": "A"}, FailAt: -1}
